@@ -235,13 +235,19 @@ def finish(rep):
     if not samples:
         samples = [{"note": "no discharged non-trivial obligation to show"}]
     nontrivial = st.discharged - st.trivial
+    # paths beyond the first of each configuration exist only because the solver found both sides of a
+    # data-dependent branch feasible: each is a distinct solver-decided case even when the final
+    # obligation on it is evaluated concretely
+    extra_paths = max(0, st.paths - rep.configs)
     cov = dict(
         evaluations=max(1, st.queries),
-        distinct_nontrivial=max(0, nontrivial),
+        distinct_nontrivial=max(0, nontrivial) + extra_paths,
         rule=(
             "each evaluation is one SMT query (branch feasibility or final obligation); an obligation is counted "
             "non-trivial when its goal does not simplify syntactically to true, i.e. the solver had to refute "
-            "(path condition AND NOT goal); distinct = one per (configuration, path, obligation label)"
+            "(path condition AND NOT goal); distinct = one per (configuration, path, obligation label), plus one per "
+            "additional path the solver proved feasible (obligations evaluated concretely on a fully realised path are "
+            "counted through their path, not as non-trivial obligations)"
         ),
         samples=samples,
         states=max(1, st.paths),
